@@ -178,11 +178,17 @@ func build(c cas) *program {
 		body = append(body, nBlock{"k", one(nText{"IK"})}, nMacroDef{"m", nil, one(nText{"IM"})}, nMacroCall{"m", nil})
 	}
 	body = cat(body, one(nText{"("}), prints(",", abcd...), one(nText{")"}))
-	w.tmpls["inc"] = &tmpl{body: body}
-	w.tmpls["inx"] = &tmpl{extends: "ibase", body: one(nBlock{"ib", body})}
-	w.tmpls["ibase"] = &tmpl{body: cat(one(nText{"IB["}), prints(",", abcd...), one(nText{":"}), one(nBlock{"ib", one(nText{"dflt"})}), one(nText{"]"}))}
-	w.tmpls["brt"] = &tmpl{body: []node{nText{"x"}, nBoom{}}}
-	w.tmpls["nmi"] = &tmpl{body: []node{nText{"N"}, nInclude{name: nameExpr{form: 0, target: "nop"}}}}
+	switch c.target { // only what the case can reach is registered (keeps a case cheap)
+	case tPlain:
+		w.tmpls["inc"] = &tmpl{body: body}
+	case tExtends:
+		w.tmpls["inx"] = &tmpl{extends: "ibase", body: one(nBlock{"ib", body})}
+		w.tmpls["ibase"] = &tmpl{body: cat(one(nText{"IB["}), prints(",", abcd...), one(nText{":"}), one(nBlock{"ib", one(nText{"dflt"})}), one(nText{"]"}))}
+	case tRenderFail:
+		w.tmpls["brt"] = &tmpl{body: []node{nText{"x"}, nBoom{}}}
+	case tNestedMissing:
+		w.tmpls["nmi"] = &tmpl{body: []node{nText{"N"}, nInclude{name: nameExpr{form: 0, target: "nop"}}}}
+	}
 
 	// the including template
 	ctx := map[string]string{"nm": tn, "pfx": tn[:2], "sfx": tn[2:]}
